@@ -41,7 +41,8 @@ def main():
             t0 = time.monotonic()
             rec = {"start": time.time()}
             try:
-                t = parser.parse(s, model_cache_folder=Path(folder), always_update_last_hit=rng.random() < 0.5)
+                t = parser.parse(s, model_cache_folder=Path(folder), always_update_last_hit=rng.random() < 0.5,
+                                 cache_expiration_days=0 if rng.random() < 0.3 else 30)
                 d = None if t is None else canon.digest(t)
                 rec["ok"] = d == ref
             except BaseException as e:
